@@ -151,3 +151,28 @@ pub fn pre_commit_refusal(v: &Value) -> Value {
     let _ = std::fs::remove_dir_all(&dir);
     json!({"let_git_run": true, "hook_result": let_run})
 }
+
+/// K4: {obstacle: path under /w | null}: the real storage constructor with something in the way under .git/ai
+pub fn storage_ctor(v: &Value) -> Value {
+    let dir = std::env::temp_dir().join(format!("vreplay-c07s-{}", std::process::id()));
+    let _ = std::fs::remove_dir_all(&dir);
+    std::fs::create_dir_all(dir.join(".git")).unwrap();
+    if let Some(ob) = v["obstacle"].as_str() {
+        let rel = ob.trim_start_matches("/w/");
+        let p = dir.join(rel);
+        if let Some(parent) = p.parent() {
+            std::fs::create_dir_all(parent).unwrap();
+        }
+        if rel.ends_with("rewrite_log") {
+            std::fs::create_dir_all(&p).unwrap();
+        } else {
+            std::fs::write(&p, "in the way\n").unwrap();
+        }
+    }
+    let d2 = dir.clone();
+    let r = std::panic::catch_unwind(move || {
+        let _ = git_ai::git::repo_storage::RepoStorage::for_repo_path(&d2.join(".git"), &d2);
+    });
+    let _ = std::fs::remove_dir_all(&dir);
+    json!({"panicked": r.is_err()})
+}
